@@ -26,9 +26,11 @@ func try(rules, target string) {
 
 func main() {
 	defer hx.Cleanup()
-	tgt := "package p\n// foo bar\nfunc f() { if g(1+2) > 0 { _ = g(3) } }\nfunc g(int) int { return 0 }\n"
-	try(`func r(m dsl.Matcher) { m.Match("if $c { $*_ }", "g($x)").Where(m["x"].Value.Int() != 78).Report("c") }`, tgt)
-	try(`func r(m dsl.Matcher) { m.Match("if $c { $*_ }", "g($x)").Where(m["x"].Text != "78").Report("c") }`, tgt)
-	try(`func r(m dsl.Matcher) { m.Match("if $c { $*_ }", "g($x)").Where(m["x"].Line > 1).Report("c") }`, tgt)
-	try(`func r(m dsl.Matcher) { m.Match("if $c { $*_ }", "g($x)").Where(m["x"].Type.Size > 1).Report("c") }`, tgt)
+	for _, arg := range []string{"nil", "fmt.Sprint", "func() {}", "x", `"s"`, "1", "T{}", "i", "probe"} {
+		tgt := "package p\nimport \"fmt\"\nvar _ = fmt.Sprint\ntype T struct{}\ntype I interface{ M() }\nfunc probe(...interface{}) int { return 0 }\nfunc f(x int, i I) { probe(" + arg + ") }\n"
+		fmt.Println("arg", arg)
+		try(`func r(m dsl.Matcher) { m.Match("probe($x)").Where(m["x"].Type.Size > 4).Report("$x") }`, tgt)
+	}
+	tgt := "package p\ntype S struct{ a int; b string }\nfunc f() int { return 1 }\nfunc g() { _ = S{f(), \"s\"}; _ = []int{f()}; _ = map[string]int{\"k\": f()} }\n"
+	try(`func r(m dsl.Matcher) { m.Match("f()").Where(m["$$"].SinkType.Is("int")).Report("sink") }`, tgt)
 }
